@@ -47,23 +47,23 @@ func genCap(t *rapid.T) Spec {
 	c := gen.SpecialCenter(t, "cap.c")
 	s := Spec{Kind: "cap", C: gen.FromPt(c)}
 	var ang float64
-	switch rapid.IntRange(0, 11).Draw(t, "cap.rk") {
-	case 0:
+	switch rapid.IntRange(0, 15).Draw(t, "cap.rk") {
+	case 8:
 		s.Family, ang = "point-cap", 0
-	case 1:
+	case 9:
 		s.Family, ang = "hemisphere", math.Pi/2+float64(rapid.IntRange(-2, 2).Draw(t, "cap.hu"))*1e-15
-	case 2:
+	case 10:
 		s.Family, ang = "full", math.Pi
-	case 3:
+	case 11, 12:
 		s.Family, ang = "near-full", math.Pi-logUniform(t, "cap.nf", 1e-7, 0.5)
-	case 4:
+	case 13, 14:
 		s.Family, ang = "large", rapid.Float64Range(math.Pi/2, math.Pi).Draw(t, "cap.big")
-	case 5:
+	case 15:
 		s.Family = "empty"
 		s.R2 = -1
 		s.Scale = 1e-9
 		return s
-	case 6, 7:
+	case 5, 6, 7:
 		// radius equal to the distance to a cell vertex / edge of a nearby cell (tangent configurations)
 		lvl := rapid.IntRange(0, 24).Draw(t, "cap.tl")
 		cell := s2.CellFromCellID(leafID(c).Parent(lvl))
@@ -682,15 +682,28 @@ func genPredCase(t *rapid.T) predCase {
 	}
 	anchors = append(anchors, s.Features()...)
 	a := anchors[rapid.IntRange(0, len(anchors)-1).Draw(t, "pc.anchor")]
+	if fs := s.Features(); len(fs) > 0 && rapid.IntRange(0, 3).Draw(t, "pc.a0") == 0 {
+		a = fs[0] // the centre / first vertex
+	}
 	L := levelForScale(s.Scale)
+	// guided: 0,1 = none, 2 = look for a sliver (cells larger than the region's
+	// features), 3 = look for a notch
+	guided := rapid.IntRange(0, 3).Draw(t, "pc.guided")
 	var lvl int
-	switch rapid.IntRange(0, 3).Draw(t, "pc.lk") {
-	case 0, 1:
-		lvl = L + rapid.IntRange(-4, 8).Draw(t, "pc.l1")
-	case 2:
-		lvl = rapid.IntRange(0, 30).Draw(t, "pc.l2")
+	switch {
+	case guided == 2:
+		lvl = L - rapid.IntRange(-1, 5).Draw(t, "pc.ls")
+	case guided == 3:
+		lvl = L + rapid.IntRange(-3, 4).Draw(t, "pc.ln")
 	default:
-		lvl = L + rapid.IntRange(8, 20).Draw(t, "pc.l3")
+		switch rapid.IntRange(0, 3).Draw(t, "pc.lk") {
+		case 0, 1:
+			lvl = L + rapid.IntRange(-4, 8).Draw(t, "pc.l1")
+		case 2:
+			lvl = rapid.IntRange(0, 30).Draw(t, "pc.l2")
+		default:
+			lvl = L + rapid.IntRange(8, 20).Draw(t, "pc.l3")
+		}
 	}
 	lvl = clampLevel(lvl)
 	id := leafID(a).Parent(lvl)
@@ -707,18 +720,188 @@ func genPredCase(t *rapid.T) predCase {
 			}
 		}
 	}
-	switch rapid.IntRange(0, 5).Draw(t, "pc.nb") {
-	case 0, 1:
+	switch rapid.IntRange(0, 7).Draw(t, "pc.nb") {
+	case 0, 1, 2:
+		// the neighbour across the edge nearest to the anchor: the region's
+		// boundary feature then lies next to a cell edge, from outside
+		if u, v, ok := faceUV(id.Face(), a.Vector); ok {
+			b := s2.CellFromCellID(id).BoundUV()
+			fu := (u - b.X.Lo) / (b.X.Hi - b.X.Lo)
+			fv := (v - b.Y.Lo) / (b.Y.Hi - b.Y.Lo)
+			k, best := 3, fu // left
+			if 1-fu < best {
+				k, best = 1, 1-fu
+			}
+			if fv < best {
+				k, best = 0, fv
+			}
+			if 1-fv < best {
+				k = 2
+			}
+			id = id.EdgeNeighbors()[k]
+		}
+	case 3:
 		id = id.EdgeNeighbors()[rapid.IntRange(0, 3).Draw(t, "pc.nbk")]
-	case 2:
+	case 4:
 		if id.Level() > 0 {
 			vn := id.VertexNeighbors(id.Level() - 1)
 			id = vn[rapid.IntRange(0, len(vn)-1).Draw(t, "pc.vnk")]
+		}
+	}
+	// oracle-guided choice (deterministic given the draws): among the cell, its
+	// neighbours, parent and children prefer one that the region enters without
+	// containing a vertex or the centre ("sliver"), or one whose vertices and
+	// centre are all in the region while the boundary enters it ("notch").
+	if guided >= 2 {
+		cands := []s2.CellID{id}
+		cands = append(cands, id.AllNeighbors(id.Level())...)
+		if id.Level() > 0 {
+			par := id.Parent(id.Level() - 1)
+			cands = append(cands, par)
+			cands = append(cands, par.AllNeighbors(par.Level())...)
+		}
+		if !id.IsLeaf() {
+			ch := id.Children()
+			cands = append(cands, ch[:]...)
+		}
+		if pick, ok := guidedTarget(s, cands, guided == 2); ok {
+			id = pick
 		}
 	}
 	c.Cell = uint64(id)
 	for i := 0; i < 8; i++ {
 		c.F = append(c.F, [2]float64{rapid.Float64Range(0, 1).Draw(t, "pc.fu"), rapid.Float64Range(0, 1).Draw(t, "pc.fv")})
 	}
+	return c
+}
+
+// directedPoints returns points of the cell that are likely to be in the
+// region even if no vertex is: region features inside the cell, the uv clamp
+// of features onto the cell, and the region's nearest points to the cell's
+// centre, vertices and edge midpoints (kept if they fall in the cell).
+func directedPoints(s Spec, cell s2.Cell, feats []s2.Point) []s2.Point {
+	var out []s2.Point
+	targets := []s2.Point{cell.Center()}
+	for k := 0; k < 4; k++ {
+		targets = append(targets, cell.Vertex(k))
+	}
+	targets = append(targets, cellPoint(cell, 0.5, 0), cellPoint(cell, 1, 0.5), cellPoint(cell, 0.5, 1), cellPoint(cell, 0, 0.5))
+	all := append([]s2.Point{}, feats...)
+	for _, tg := range targets {
+		all = append(all, s.NearestIn(tg)...)
+	}
+	b := cell.BoundUV()
+	size := b.X.Hi - b.X.Lo
+	for _, f := range all {
+		if sl, ok := uvSlack(cell, f); ok && sl >= 0 {
+			out = append(out, f)
+			// and points around it, still inside the cell
+			if u, v, ok := faceUV(cell.Face(), f.Vector); ok {
+				for _, d := range [][2]float64{{1, 0}, {-1, 0}, {0, 1}, {0, -1}} {
+					for _, h := range []float64{1e-3 * size, 0.05 * size} {
+						uu := math.Max(b.X.Lo, math.Min(b.X.Hi, u+d[0]*h))
+						vv := math.Max(b.Y.Lo, math.Min(b.Y.Hi, v+d[1]*h))
+						out = append(out, s2.Point{Vector: gen.FaceUVToXYZ(cell.Face(), uu, vv).Normalize()})
+					}
+				}
+			}
+		} else if q, ok := clampToCell(cell, f); ok {
+			out = append(out, q)
+		}
+	}
+	return out
+}
+
+func guidedTarget(s Spec, cands []s2.CellID, sliver bool) (s2.CellID, bool) {
+	feats := s.Features()
+	if len(feats) > 24 {
+		feats = feats[:24]
+	}
+	for _, id := range cands {
+		if !id.IsValid() {
+			continue
+		}
+		cell := s2.CellFromCellID(id)
+		corner := []s2.Point{cell.Center(), cell.Vertex(0), cell.Vertex(1), cell.Vertex(2), cell.Vertex(3)}
+		ok := true
+		for _, p := range corner {
+			m := s.Member(p)
+			if (sliver && m == mIn) || (!sliver && m != mIn) {
+				ok = false
+				break
+			}
+		}
+		if !ok {
+			continue
+		}
+		for _, p := range directedPoints(s, cell, feats) {
+			m := s.Member(p)
+			if (sliver && m == mIn) || (!sliver && m == mOut) {
+				return id, true
+			}
+		}
+	}
+	return 0, false
+}
+
+// ---------------------------------------------------------------- flood fill
+
+type floodCase struct {
+	R      Spec
+	Level  int
+	Start  gen.P
+	Probes []Probe
+}
+
+// connected: the flood-fill covering documents "connected region".
+func (s Spec) connected() bool {
+	switch s.Kind {
+	case "polygon":
+		return len(s.Rings) <= 2 || s.Full
+	case "cellunion":
+		return false
+	}
+	return true
+}
+
+func genFloodCase(t *rapid.T) floodCase {
+	var s Spec
+	for i := 0; ; i++ {
+		s = genSpec(t)
+		if s.connected() || i > 4 {
+			break
+		}
+	}
+	c := floodCase{R: s, Probes: genProbes(t, s, 16)}
+	safe := safeMinLevel(s)
+	if s.Kind != "polyline" && safe > 0 {
+		safe-- // ~400 cells at most
+	}
+	c.Level = clampLevel(safe - rapid.IntRange(0, 6).Draw(t, "ff.lvl"))
+	// start: a point of the region (a feature or probe the oracle puts inside), else any feature
+	var cands []s2.Point
+	for _, f := range s.Features() {
+		cands = append(cands, f)
+	}
+	for _, p := range c.Probes {
+		cands = append(cands, p.P.Pt())
+	}
+	if s.cellKind() {
+		// cell regions intersect a cell only if the interiors overlap: start strictly inside
+		cands = cands[:1]
+	}
+	k := rapid.IntRange(0, len(cands)).Draw(t, "ff.start")
+	start := s2.PointFromCoords(1, 0, 0)
+	found := false
+	for i := 0; i < len(cands) && !found; i++ {
+		p := cands[(k+i)%len(cands)]
+		if s.Member(p) == mIn {
+			start, found = p, true
+		}
+	}
+	if !found && len(cands) > 0 {
+		start = cands[k%len(cands)]
+	}
+	c.Start = gen.FromPt(start)
 	return c
 }
